@@ -436,6 +436,8 @@ class _CopyFaultShutil:
             with open(dst, "wb") as f:
                 f.write(data[:int(len(data) * cf.get("frac", 0.5))])
             SIM.log("copy-fault-fired", SIM.ncopy, _rel(dst, SIM.root), cf.get("errno", "ENOSPC"))
+            if cf.get("errno") == "KILL":
+                SIM.log("KILL", SIM.npoint, "inside-url-copy"); SIM.logf.flush(); os._exit(137)
             raise OSError(getattr(errno, cf.get("errno", "ENOSPC")), "injected short write")
         return self.__dict__["_r"].copy2(src, dst, *a, **kw)
 
